@@ -1,6 +1,349 @@
-//! C27 — not implemented yet.
+//! C27 — GROUPING SETS, ROLLUP and CUBE match their SQL definition.
+//!
+//! Generator (own): one table `g(a BIGINT, b VARCHAR, c BIGINT, v BIGINT, d DOUBLE)`
+//! with 0–12 rows (thorough 0–30); grouping columns `a ∈ {0,1,2}`, `b ∈ {'x','y'}`,
+//! `c ∈ {0,1}`; in ~50 % of the tables the grouping columns also hold NULLs (the
+//! open finding `agg-null-group-key` interferes there, so half of the tables keep them
+//! NULL-free); `v`, `d` (multiples of 0.25) are nullable measures. A statement is
+//!   SELECT <grouping columns (any subset/order)>, <1–3 aggregates>, <0–2 GROUPING(…)>
+//!   FROM g [WHERE …] GROUP BY { GROUPING SETS (…) | ROLLUP (…) | CUBE (…) }
+//! with GROUPING SETS lists of 1–4 sets over 1–3 columns including the empty
+//! set `()`, repeated sets and permuted column order inside a set; ROLLUP / CUBE
+//! over 1–3 columns in any order; GROUPING() with 1–3 arguments in any order.
+//! (The engine's binder accepts exactly this shape: one grouping-set item, no
+//! HAVING, plain aggregates.)
+//!
+//! Oracle: `refsql`'s grouping-set evaluation — which this module first checks
+//! against itself on every case (SQLite has no grouping sets): the statement is
+//! expanded HERE (own ROLLUP/CUBE expansion, own GROUPING bitmask) into one plain
+//! `GROUP BY` statement per set, with absent columns replaced by NULL literals
+//! and GROUPING() by its constant; each is evaluated by refsql's ordinary GROUP
+//! BY path and the concatenation must equal refsql's direct answer
+//! (`ORACLE SELF-CHECK` failure otherwise — a harness bug, never an engine verdict).
+//!
+//! NT: a grouping column used by the statement is NULL in some input row (so "NULL
+//! because absent" and "NULL group" coexist), ≥ 2 distinct grouping sets, and the
+//! engine answered.
 use super::Property;
+use crate::data::*;
+use crate::kf_sql::classify_sql;
+use crate::refsql::Db;
+use crate::runner::*;
+use crate::sqlast::*;
+use crate::sqlcheck::*;
+use crate::sqlgen::{SqlCase, Tape};
+use proptest::prelude::*;
+use std::collections::BTreeSet;
+
+fn nullable(s: BoxedStrategy<Value>, pct: u32) -> BoxedStrategy<Value> {
+    if pct == 0 {
+        s
+    } else {
+        prop_oneof![pct => Just(Value::Null), (100 - pct) => s].boxed()
+    }
+}
+
+fn table_strategy(max_rows: usize) -> BoxedStrategy<Table> {
+    (prop_oneof![10 => Just(0u32), 5 => Just(20u32), 5 => Just(45u32)], prop_oneof![Just(0u32), Just(25u32)])
+        .prop_flat_map(move |(gpct, mpct)| {
+            let row = (
+                nullable((0i64..3).prop_map(Value::Int).boxed(), gpct),
+                nullable(prop_oneof![Just("x"), Just("y")].prop_map(|s| Value::Str(s.to_string())).boxed(), gpct),
+                nullable((0i64..2).prop_map(Value::Int).boxed(), gpct),
+                nullable((0i64..5).prop_map(Value::Int).boxed(), mpct),
+                nullable((-2i64..7).prop_map(|k| Value::Double(k as f64 * 0.25)).boxed(), mpct),
+            );
+            proptest::collection::vec(row, 0..=max_rows).prop_map(|rows| {
+                let c = |n: &str, ty| Column { name: n.to_string(), ty };
+                Table {
+                    name: "g".into(),
+                    cols: vec![c("a", ColType::Int), c("b", ColType::Str), c("c", ColType::Int), c("v", ColType::Int), c("d", ColType::Double)],
+                    rows: rows.into_iter().map(|(a, b, c, v, d)| vec![a, b, c, v, d]).collect(),
+                }
+            })
+        })
+        .boxed()
+}
+
+fn col(n: &str) -> Expr {
+    Expr::qcol("g", n)
+}
+
+const GCOLS: [&str; 3] = ["a", "b", "c"];
+
+pub fn gen_case(table: Table, tape: Vec<u16>, cuts: Vec<usize>) -> SqlCase {
+    let mut t = Tape::new(tape);
+    let mut feats: BTreeSet<String> = BTreeSet::new();
+    // the columns this statement groups over (1–3, any order)
+    let k = 1 + t.pick(3);
+    let mut pool: Vec<&str> = GCOLS.to_vec();
+    let mut cols: Vec<&str> = vec![];
+    for _ in 0..k {
+        let i = t.pick(pool.len());
+        cols.push(pool.remove(i));
+    }
+    let group = match t.pick(4) {
+        0 => {
+            feats.insert("rollup".into());
+            Group::Rollup(cols.iter().map(|c| col(c)).collect())
+        }
+        1 => {
+            feats.insert("cube".into());
+            Group::Cube(cols.iter().map(|c| col(c)).collect())
+        }
+        _ => {
+            feats.insert("grouping_sets".into());
+            let ns = 1 + t.pick(4);
+            let mut sets: Vec<Vec<Expr>> = vec![];
+            for _ in 0..ns {
+                if !sets.is_empty() && t.chance(15) {
+                    feats.insert("repeated_set".into());
+                    let i = t.pick(sets.len());
+                    sets.push(sets[i].clone());
+                    continue;
+                }
+                let mut s: Vec<Expr> = vec![];
+                for c in &cols {
+                    if t.chance(50) {
+                        s.push(col(c));
+                    }
+                }
+                if s.len() >= 2 && t.chance(40) {
+                    s.reverse();
+                }
+                if s.is_empty() {
+                    feats.insert("empty_set".into());
+                }
+                sets.push(s);
+            }
+            // every chosen column appears in some set (else it is not a grouping column)
+            for c in &cols {
+                if !sets.iter().any(|s| s.contains(&col(c))) {
+                    sets.push(vec![col(c)]);
+                }
+            }
+            Group::Sets(sets)
+        }
+    };
+    if matches!(group, Group::Rollup(_) | Group::Cube(_)) {
+        feats.insert("empty_set".into());
+    }
+    feats.insert(format!("cols{}", cols.len()));
+
+    // select list: grouping columns (subset, any order) + aggregates + GROUPING()
+    let mut items: Vec<Item> = vec![];
+    let mut shown: Vec<&str> = cols.clone();
+    if t.chance(30) {
+        shown.reverse();
+    }
+    if shown.len() > 1 && t.chance(20) {
+        shown.pop();
+        feats.insert("grouping_column_not_projected".into());
+    }
+    for c in &shown {
+        items.push(Item::Expr(col(c), Some(format!("k_{}", c))));
+    }
+    let na = 1 + t.pick(3);
+    for i in 0..na {
+        let e = match t.pick(7) {
+            0 => Expr::count_star(),
+            1 => Expr::agg(AggF::Count, col("v")),
+            2 => Expr::agg(AggF::Sum, col("v")),
+            3 => Expr::agg(AggF::Min, col("v")),
+            4 => Expr::agg(AggF::Max, col("d")),
+            5 => Expr::agg(AggF::Avg, col("v")),
+            // an aggregate over a grouping column: it keeps seeing the real values
+            // in the sets where the column is absent
+            _ => Expr::agg([AggF::Count, AggF::Max, AggF::Min][t.pick(3)], col(cols[t.pick(cols.len())])),
+        };
+        if i == 0 {
+            // the first aggregate is always COUNT(*) so that every expansion branch is an aggregate query
+            items.push(Item::Expr(Expr::count_star(), Some("n".into())));
+        }
+        items.push(Item::Expr(e, Some(format!("a{}", i))));
+    }
+    let ng = t.pick(3);
+    for i in 0..ng {
+        let n = 1 + t.pick(cols.len());
+        let mut pool: Vec<&str> = cols.clone();
+        let mut args = vec![];
+        for _ in 0..n {
+            let j = t.pick(pool.len());
+            args.push(col(pool.remove(j)));
+        }
+        feats.insert(format!("grouping_args{}", n));
+        items.push(Item::Expr(Expr::Grouping(args), Some(format!("gr{}", i))));
+    }
+    let where_ = if t.chance(25) {
+        feats.insert("where".into());
+        Some(match t.pick(3) {
+            0 => Expr::bin(col("v"), BinOp::Ge, Expr::int(t.pick(5) as i64)),
+            1 => Expr::bin(col("a"), BinOp::Ne, Expr::int(t.pick(3) as i64)),
+            _ => Expr::bin(col("v"), BinOp::Lt, Expr::int(0)),
+        })
+    } else {
+        None
+    };
+    // data facts for the rule
+    let used_idx: Vec<usize> = cols.iter().map(|c| table.col_index(c).unwrap()).collect();
+    if table.rows.iter().any(|r| used_idx.iter().any(|i| r[*i].is_null())) {
+        feats.insert("null_in_grouping_column".into());
+    }
+    let n = table.rows.len();
+    let q = Query::select(Select { distinct: false, items, from: vec![From::Table { name: "g".into(), alias: None }], where_, group, having: None });
+    SqlCase { tables: vec![table], query: q, cuts: vec![cuts.iter().map(|c| c % (n + 1)).collect()], features: feats.into_iter().collect() }
+}
+
+/// Own expansion of the GROUP BY item into grouping sets (independent of refsql's).
+fn expand_sets(g: &Group) -> Vec<Vec<Expr>> {
+    match g {
+        Group::Sets(s) => s.clone(),
+        Group::Rollup(v) => {
+            // (c1..cn), (c1..cn-1), …, (c1), ()
+            let mut out = vec![];
+            let mut k = v.len() as i64;
+            while k >= 0 {
+                out.push(v[..k as usize].to_vec());
+                k -= 1;
+            }
+            out
+        }
+        Group::Cube(v) => {
+            // every subset
+            let n = v.len();
+            (0..(1usize << n)).map(|m| v.iter().enumerate().filter(|(i, _)| m >> i & 1 == 1).map(|(_, e)| e.clone()).collect()).collect()
+        }
+        Group::By(v) => vec![v.clone()],
+        Group::None => vec![vec![]],
+    }
+}
+
+/// One plain GROUP BY statement per grouping set.
+fn expansion(q: &Query) -> Option<Vec<Query>> {
+    let s = match &q.body {
+        SetExpr::Select(s) => s,
+        _ => return None,
+    };
+    let sets = expand_sets(&s.group);
+    let mut out = vec![];
+    for set in sets {
+        let items: Vec<Item> = s
+            .items
+            .iter()
+            .map(|it| match it {
+                Item::Expr(Expr::Grouping(args), a) => {
+                    // standard bitmask: leftmost argument = most significant bit; 1 = not grouped
+                    let mut m = 0i64;
+                    for x in args {
+                        m = m * 2 + if set.contains(x) { 0 } else { 1 };
+                    }
+                    Item::Expr(Expr::int(m), a.clone())
+                }
+                Item::Expr(e @ Expr::Col { .. }, a) => {
+                    if set.contains(e) {
+                        Item::Expr(e.clone(), a.clone())
+                    } else {
+                        Item::Expr(Expr::Lit(Value::Null), a.clone())
+                    }
+                }
+                other => other.clone(),
+            })
+            .collect();
+        // duplicates inside one set do not matter for GROUP BY
+        let mut keys: Vec<Expr> = vec![];
+        for e in &set {
+            if !keys.contains(e) {
+                keys.push(e.clone());
+            }
+        }
+        let group = if keys.is_empty() { Group::None } else { Group::By(keys) };
+        out.push(Query::select(Select { distinct: false, items, from: s.from.clone(), where_: s.where_.clone(), group, having: None }));
+    }
+    Some(out)
+}
+
+fn classify(c: &SqlCase, ev: &BTreeSet<&'static str>, msg: &str) -> Option<&'static str> {
+    match classify_sql(c, ev, msg) {
+        Some(id @ ("agg-null-group-key" | "agg-empty-input")) => Some(id),
+        _ => None,
+    }
+}
+
+struct GroupingSets;
+
+impl Check for GroupingSets {
+    type Case = SqlCase;
+    fn name(&self) -> &'static str {
+        "grouping_sets"
+    }
+    fn rule(&self) -> &'static str {
+        "a grouping column used by the statement is NULL in some input row (NULL-because-absent and NULL-group coexist), the statement has >= 2 distinct grouping sets, and the engine answered"
+    }
+    fn cases(&self, tier: Tier) -> u32 {
+        tier.pick(500, 30_000)
+    }
+    fn max_shrink_iters(&self) -> u32 {
+        // (every grouping set is one aggregate pipeline in the engine: ~0.1 s per branch)
+        300
+    }
+    fn strategy(&self, tier: Tier) -> BoxedStrategy<SqlCase> {
+        let max_rows = tier.pick(12, 30);
+        (table_strategy(max_rows), proptest::collection::vec(any::<u16>(), 10..80), proptest::collection::vec(0usize..31, 0..3)).prop_map(|(t, tape, cuts)| gen_case(t, tape, cuts)).boxed()
+    }
+    fn test(&self, c: &SqlCase, obs: &mut Obs) -> Verdict {
+        // ---- oracle self-check: refsql's grouping sets == UNION ALL of refsql's plain GROUP BYs
+        let direct = Db::new(&c.tables).run(&c.query);
+        let mut distinct_sets = 0usize;
+        if let (Ok(direct), Some(parts)) = (&direct, expansion(&c.query)) {
+            let mut all: Rows = vec![];
+            let mut ok = true;
+            for p in &parts {
+                match Db::new(&c.tables).run(p) {
+                    Ok(a) => all.extend(a.rows),
+                    Err(_) => ok = false,
+                }
+            }
+            if ok && !multiset_eq(&all, &direct.rows, 1e-12) {
+                return Verdict::Fail(format!(
+                    "ORACLE SELF-CHECK: refsql's grouping-set answer differs from the UNION ALL of its plain GROUP BY answers (harness bug, not an engine defect)\n sql: {}\n direct:\n{} expanded:\n{}",
+                    c.query.sql(),
+                    fmt_rows(&direct.rows, 40),
+                    fmt_rows(&all, 40)
+                ));
+            }
+            obs.label("selfcheck_ok");
+            if let SetExpr::Select(s) = &c.query.body {
+                let mut seen: Vec<Vec<String>> = vec![];
+                for set in expand_sets(&s.group) {
+                    let mut k: Vec<String> = set.iter().map(|e| e.sql()).collect();
+                    k.sort();
+                    k.dedup();
+                    if !seen.contains(&k) {
+                        seen.push(k);
+                    }
+                }
+                distinct_sets = seen.len();
+            }
+        }
+        obs.label(format!("distinct_sets:{}", distinct_sets.min(8)));
+        let out = judge(c, obs, 1e-9, classify);
+        for e in &out.events {
+            obs.label(format!("ev:{}", e));
+        }
+        obs.nontrivial(has(c, "null_in_grouping_column") && distinct_sets >= 2 && out.engine_rows.is_some());
+        out.verdict
+    }
+}
 
 pub fn property() -> Property {
-    Property { id: "C27", level: "exploration", assumptions: &[], checks: vec![] }
+    Property {
+        id: "C27",
+        level: "exploration",
+        assumptions: &[
+            "the reference evaluator's grouping-set semantics (refsql) are cross-checked on every case against this module's own expansion into plain GROUP BY statements evaluated by refsql's ordinary GROUP BY path (itself validated against SQLite)",
+            "GROUPING() follows the standard bitmask: leftmost argument is the most significant bit, 1 = the column is not part of the row's grouping set",
+            "an engine error is an allowed outcome (the binder supports one GROUPING SETS / ROLLUP / CUBE item, no HAVING, plain aggregates)",
+        ],
+        checks: vec![Box::new(GroupingSets)],
+    }
 }
